@@ -477,7 +477,7 @@ def build_steady(prog, chans, ch0_reply_prefill=0, sealed=False, outbuf_len=None
         st.pc.append(z3.ULE(cid, cmax))
     from .models import AssocMap as _A
     freed = FreedIds()
-    nxt = prog_counter_value(prog, st)
+    nxt = prog_counter_value(prog, st, cmax)
     chan_slots = mk_struct(prog, 'ChannelSlots', slots=slots, freed_channel_ids=freed, next_channel_id=nxt, channel_max=Int(cmax, 16, False))
     w.hb = hb if hb is not None else Heartbeats()
     inner = mk_struct(prog, 'io_loop::Inner', outbuf=outbuf, heartbeats=w.hb, chan_slots=chan_slots,
@@ -515,8 +515,17 @@ class FreedIds(Opaque):
         self.inserted = []
 
 
-def prog_counter_value(prog, st):
-    return Lazy('counter', 'next_channel_id')
+def prog_counter_value(prog, st, cmax=None):
+    """never-used-id counter of ChannelSlots (width from the declaration); the harness keeps the scan short: the
+    counter has reached channel_max or passed it"""
+    fts = dict(prog.types.field_types('ChannelSlots') or [])
+    ty = fts.get('next_channel_id', 'u16')
+    wd = INT_TYPES[ty][0]
+    v = sym('next_channel_id', z3.BitVecSort(wd))
+    if cmax is not None:
+        cm = z3.ZeroExt(wd - 16, cmax) if wd > 16 else cmax
+        st.pc += [z3.UGE(v, cm), z3.ULE(v, cm + 1) if wd > 16 else z3.UGE(v, cm), z3.UGE(v, 1)]
+    return Int(v, wd, False)
 
 
 def mk_slot_named(prog, w, name, chan_id, **kw):
@@ -553,6 +562,43 @@ def io_summaries():
         fs.present = z3.Store(fs.present, k, z3.BoolVal(True))
         fs.inserted.append(k)
         return [(st, Bool(z3.Not(had)))]
+
+    @reg(r'^IndexSet::<u16>::pop$')
+    def freed_pop(ex, st, fn, argv):
+        fs = deref(ex, st, argv[0])
+        if not isinstance(fs, FreedIds):
+            return NotImplemented
+        s16 = z3.BitVecSort(16)
+        outs = []
+        for (s, c, e) in ex.fork_on(st, fs.present == z3.K(s16, z3.BoolVal(False)), argv):
+            q = deref(ex, s, c[0])
+            if e:
+                outs.append((s, mk_option()))
+            else:
+                k = s.fresh_bv('popped', 16)
+                s.pc.append(z3.Select(q.present, k))
+                # representation invariant of the table: a freed id is a valid id that is not occupied (C10)
+                s.pc += [k != 0] + [k != ent[0].bv for ent in s.roots['w'].slots_map.entries if not z3.is_false(z3.simplify(ent[2]))]
+                q.present = z3.Store(q.present, k, z3.BoolVal(False))
+                outs.append((s, mk_option(Int(k, 16, False))))
+        return outs
+
+    @reg(r'^IndexSet::<u16>::(swap_remove|remove)(::<u16>)?$')
+    def freed_remove(ex, st, fn, argv):
+        fs = deref(ex, st, argv[0])
+        if not isinstance(fs, FreedIds):
+            return NotImplemented
+        k = deref(ex, st, argv[1]).bv
+        had = z3.Select(fs.present, k)
+        fs.present = z3.Store(fs.present, k, z3.BoolVal(False))
+        return [(st, Bool(had))]
+
+    @reg(r'^IndexSet::<u16>::is_empty$')
+    def freed_is_empty(ex, st, fn, argv):
+        fs = deref(ex, st, argv[0])
+        if not isinstance(fs, FreedIds):
+            return NotImplemented
+        return [(st, Bool(fs.present == z3.K(z3.BitVecSort(16), z3.BoolVal(False))))]
 
     @reg(r'^AMQPHardError::get_id$|^amq_protocol::protocol::AMQPHardError::get_id$')
     def hard_id(ex, st, fn, argv):
@@ -779,3 +825,145 @@ def sent_frames(prog, info):
         else:
             out.append((vn, None, None))
     return out
+
+
+# ------------------------------------------------------------------------------------------ mio
+READABLE, WRITABLE = 1, 2
+
+
+def mk_ready(bits):
+    return Agg({0: Int(bits, 64, False)}, 'mio::Ready')
+
+
+def mk_token(n):
+    return Agg({0: Int(n, 64, False) if isinstance(n, int) else Int(n, 64, False)}, 'mio::Token')
+
+
+def mk_event(ready_bits, token):
+    return Agg({0: mk_ready(ready_bits), 1: mk_token(token)}, 'mio::Event')
+
+
+class PollModel(Opaque):
+    """mio::Poll: registration table source -> [token, interest bits, registered?]; plus a log of calls"""
+
+    def __init__(self):
+        self.regs = []     # [source object, token bv64, interest bv64, registered(bool)]
+        self.log = []
+
+    def find(self, src):
+        for r in self.regs:
+            if r[0] is src:
+                return r
+        return None
+
+
+class EventsModel(Opaque):
+    def __init__(self):
+        self.items = []
+
+
+def mio_summaries():
+    S = []
+
+    def reg(pat):
+        def deco(f):
+            S.append((pat, f))
+            return f
+        return deco
+
+    @reg(r'^(mio::)?Ready::readable$')
+    def r_readable(ex, st, fn, argv):
+        return [(st, mk_ready(READABLE))]
+
+    @reg(r'^(mio::)?Ready::writable$')
+    def r_writable(ex, st, fn, argv):
+        return [(st, mk_ready(WRITABLE))]
+
+    @reg(r'^<(mio::)?Ready as BitOr>::bitor$')
+    def r_or(ex, st, fn, argv):
+        return [(st, Agg({0: Int(argv[0].fields[0].bv | argv[1].fields[0].bv, 64, False)}, 'mio::Ready'))]
+
+    @reg(r'^(mio::)?Ready::is_readable$')
+    def r_is_r(ex, st, fn, argv):
+        r = deref(ex, st, argv[0])
+        return [(st, Bool((r.fields[0].bv & READABLE) != 0))]
+
+    @reg(r'^(mio::)?Ready::is_writable$')
+    def r_is_w(ex, st, fn, argv):
+        r = deref(ex, st, argv[0])
+        return [(st, Bool((r.fields[0].bv & WRITABLE) != 0))]
+
+    @reg(r'^(mio::)?PollOpt::edge$')
+    def p_edge(ex, st, fn, argv):
+        return [(st, Agg({}, 'mio::PollOpt', 'edge'))]
+
+    @reg(r'^(mio::)?Event::token$')
+    def e_token(ex, st, fn, argv):
+        return [(st, value_copy(deref(ex, st, argv[0]).fields[1]))]
+
+    @reg(r'^(mio::)?Event::readiness$')
+    def e_ready(ex, st, fn, argv):
+        return [(st, value_copy(deref(ex, st, argv[0]).fields[0]))]
+
+    def do_reg(ex, st, fn, argv, kind):
+        p = deref(ex, st, argv[0])
+        src = deref(ex, st, argv[1])
+        ok = st.fresh_bool('poll_ok') if st.roots.get('poll_may_fail') else z3.BoolVal(True)
+        outs = []
+        for (s, c, good) in ex.fork_on(st, ok, argv):
+            if not good:
+                outs.append((s, mk_err(Agg({}, 'IoError', 'poll-error'))))
+                continue
+            pp, ss = deref(ex, s, c[0]), deref(ex, s, c[1])
+            r = pp.find(ss)
+            if kind == 'deregister':
+                if r is not None:
+                    r[3] = False
+                pp.log.append(('deregister', ss))
+            else:
+                tok, rdy = c[2].fields[0].bv, c[3].fields[0].bv
+                if r is None:
+                    pp.regs.append([ss, tok, rdy, True])
+                else:
+                    r[1], r[2], r[3] = tok, rdy, True
+                pp.log.append((kind, ss, tok, rdy))
+            outs.append((s, mk_ok(Unit())))
+        return outs
+
+    @reg(r'^(mio::)?Poll::register::<')
+    def p_register(ex, st, fn, argv):
+        return do_reg(ex, st, fn, argv, 'register')
+
+    @reg(r'^(mio::)?Poll::reregister::<')
+    def p_reregister(ex, st, fn, argv):
+        return do_reg(ex, st, fn, argv, 'reregister')
+
+    @reg(r'^(mio::)?Poll::deregister::<')
+    def p_deregister(ex, st, fn, argv):
+        return do_reg(ex, st, fn, argv, 'deregister')
+
+    @reg(r'^(mio::)?Events::with_capacity$')
+    def ev_new(ex, st, fn, argv):
+        return [(st, EventsModel())]
+
+    @reg(r'^(mio::)?Events::is_empty$')
+    def ev_empty(ex, st, fn, argv):
+        return [(st, Bool(len(deref(ex, st, argv[0]).items) == 0))]
+
+    @reg(r'^(mio::)?Events::iter$')
+    def ev_iter(ex, st, fn, argv):
+        e = deref(ex, st, argv[0])
+        return [(st, Agg({0: Ref(Cell(e, 'events')), 1: Int(0, 64)}, 'EventsIter'))]
+
+    @reg(r'^<(mio::)?(event_imp::)?(EventsIter|Iter)<.*> as Iterator>::next$')
+    def ev_next(ex, st, fn, argv):
+        r = argv[0]
+        it = deref(ex, st, r)
+        e = deref(ex, st, it.fields[0])
+        i = z3.simplify(it.fields[1].bv).as_long()
+        if i < len(e.items):
+            it.fields[1] = Int(i + 1, 64)
+            return [(st, mk_option(value_copy(e.items[i])))]
+        return [(st, mk_option())]
+
+    return S
